@@ -56,7 +56,8 @@ A_BUILD = ('compiled configuration = extension rebuilt from the current tenpy/li
 
 info('C01',
      'P: _iter_common_sorted (all matches, in order; loop invariant, termination), LegCharge.get_qindex (block/offset of a flat index; '
-     'IndexError iff out of range), Array.get_leg_index, label helpers. '
+     'IndexError iff out of range), Array.get_leg_index; label bookkeeping: Array.ireplace_label, idrop_labels, iset_leg_labels (exactly the '
+     'addressed entries change, on a new list; duplicates refused before anything changes) (contracts/c_labels.py). '
      'B (bounded, not proof): dense-numpy postcondition (values, labels, qtotal, error class) of every public operation over '
      'generated charge structures in both configurations; zero-size stored blocks in separate interpreters.',
      ['dense equality of tensordot/combine/split/svd workers for unbounded structures (BLAS numerics): bounded only',
@@ -216,7 +217,8 @@ info('C19',
       'known findings F-15 (open x with shifted y, |dx0| >= Lx), F-35 (NLegLadder nearest_neighbors)'],
      [])
 info('C15',
-     'P: TruncationError.__add__/copy/from_norm only (contracts/c_timeevol.py). '
+     'P: TruncationError.__add__/copy/from_norm (contracts/c_timeevol.py); _combine_constraints, the priority rule by which truncate() drops a '
+     'constraint that would leave no admissible cut (contracts/c_truncation.py). '
      'B (bounded; exhaustive over the stated grid in the thorough tier): truncate() against an independent brute-force statement of '
      'the option lattice (all cuts enumerated) for all spectra of length <= 5 over a value grid with exact degeneracies, zeros, '
      'unnormalised and unsorted input x the full option grid incl. None: kept multiset, T1, norm and discarded weight; svd_theta: '
